@@ -98,7 +98,17 @@ def inlined_guards(fn, by_pat, env=None, depth=0, outer_ctx=(), force=()):
             ctx = [(l, env) for l, o in reach_tagged(fn["body"], n) if o in ("if", "else")]
             # small `return expr;` helpers of the class / of this file read as their expression
             cnd = inline_single_returns(n["c"], by_pat, fn.get("rect"), file=str(fn.get("pat", "")).rsplit(":", 1)[0])
-            out.append((cnd, env, ctx, list(outer_ctx)))
+            # `if (a || b) throw` rejects exactly what `if (a) throw; if (b) throw;` rejects: one guard per disjunct
+
+            def disj(x):
+                x0 = strip(x)
+                while isinstance(x0, dict) and x0.get("k") == "Paren":
+                    x0 = strip(x0.get("e"))
+                if isinstance(x0, dict) and x0.get("k") == "Bin" and x0.get("op") == "||":
+                    return disj(x0["l"]) + disj(x0["r"])
+                return [x]
+            for part in disj(cnd):
+                out.append((part, env, ctx, list(outer_ctx)))
     walk(fn["body"], v)
     return out
 
